@@ -61,6 +61,67 @@ def read_fs(fs):
     return sorted(out, key=lambda e: (e[0], str(e[1])))
 
 
+PATHS = [["n"], ["c"], ["agr", "n"], ["agr", "c"]]
+
+
+def gen_sfs(rng, prefix):
+    """flat description of a typed structure with sharing: path -> atom | var | free | absent"""
+    leaves = []
+    for p in PATHS:
+        r = rng.random()
+        if r < 0.3:
+            leaves.append([p, "atom", rng.choice(VALS)])
+        elif r < 0.65:
+            leaves.append([p, "var", prefix + rng.choice("xy")])
+        elif r < 0.8:
+            leaves.append([p, "free", ""])
+    return leaves
+
+
+def build_sfs(leaves):
+    """through the public constructors: shared variables are shared FeatureStructure objects"""
+    root = FeatureStructure()
+    variables = {}
+    agr = None
+    for p, k, v in leaves:
+        if k == "atom":
+            leaf = FeatureStructure(v)
+        elif k == "var":
+            if v not in variables:
+                variables[v] = FeatureStructure()
+            leaf = FeatureStructure()
+            leaf.pointer = variables[v]
+        else:
+            leaf = FeatureStructure()
+        if len(p) == 1:
+            root.add_content(p[0], leaf)
+        else:
+            if agr is None:
+                agr = FeatureStructure()
+                root.add_content("agr", agr)
+            agr.add_content(p[1], leaf)
+    return root
+
+
+def read_sfs(fs):
+    """observable constraints of a structure: atoms and sharing classes (identity of dereferenced leaves)"""
+    out = []
+    classes = {}
+    for p in PATHS:
+        try:
+            node = fs.get_feature_by_path(p)
+        except Exception:  # pylint: disable=broad-except
+            continue
+        node = node.get_dereferenced()
+        if node.content:
+            continue
+        if node.value is not None:
+            out.append([p, "atom", node.value])
+        else:
+            out.append([p, "var", "c%d" % classes.setdefault(id(node), len(classes))])
+    return out
+
+
 def gen_fcfg(rng):
     """agreement grammar: each non-terminal occurrence carries n = constant | ?variable | (feature-free)"""
     vs = ["S", "A", "B"][:rng.randint(2, 3)]
@@ -139,7 +200,8 @@ def instantiate(spec):
 
 def generate(rng, tier):
     while True:
-        yield {"a": gen_fs(rng), "b": gen_fs(rng), "g": gen_fcfg(rng)}
+        yield {"a": gen_fs(rng), "b": gen_fs(rng), "sa": gen_sfs(rng, "a"), "sb": gen_sfs(rng, "b"),
+               "g": gen_fcfg(rng)}
 
 
 def count_leaves(spec):
@@ -170,6 +232,29 @@ def run_case(case, drv):
             if impl != spec:
                 res.violation("unify", "receiver is not the most general structure carrying the information of both",
                               detail={"order": tag, "impl": impl, "spec": spec, "a": x, "b": y})
+    # ---- unification with shared variables: ground semantics ------------------------------------------
+    sa, sb = case.get("sa"), case.get("sb")
+    if sa is not None:
+        for x, y, tag in ((sa, sb, "a.unify(b)"), (sb, sa, "b.unify(a)")):
+            fx, fy = build_sfs(x), build_sfs(y)
+            got = outcome(lambda: fx.unify(fy))
+            m = drv.call("fs.meaning", paths=PATHS, vals=VALS, structures=[x, y])
+            want = sorted(set(m[0]) & set(m[1]))
+            res.evals += 1
+            if not want:
+                if got != ("exc", "FeatureStructuresNotCompatibleException"):
+                    res.violation("unify", "structures without a common instance are not refused",
+                                  detail={"order": tag, "impl": got if got[0] != "ok" else "unified", "a": x, "b": y},
+                                  scope=["shared_variables"])
+            elif got[0] != "ok":
+                res.violation("unify", "compatible structures are refused: %s" % (got,), detail={"order": tag, "a": x, "b": y},
+                              scope=["shared_variables"])
+            else:
+                r = read_sfs(fx)
+                mr = drv.call("fs.meaning", paths=PATHS, vals=VALS, structures=[r])[0]
+                if sorted(mr) != want:
+                    res.violation("unify", "receiver does not denote the common instances of both structures",
+                                  detail={"order": tag, "a": x, "b": y, "result": r}, scope=["shared_variables"])
     # ---- FCFG membership ------------------------------------------------------------------------------
     gs = case["g"]
     st, fg = outcome(lambda: build_fcfg(gs))
